@@ -389,6 +389,11 @@ def run(ctx):
         for L in (8, 12):
             for ch in chunks:
                 jobs.append(("inv", (L, "adjacent" if L == 8 or ctx.thorough else "singles", real, ch[: max(2, len(ch) // (1 if ctx.thorough else 3))])))
+        # every other degree up to the cap of the P block and beyond it: dense / wide-range / decaying vectors only (they excite every
+        # (l, l1, l2) coupling at once), a few rotations in the quick tier and all of them in the thorough one
+        for L in [l for l in range(7, 27) if l not in (8, 12)]:
+            sub = rots if ctx.thorough else [rots[(3 * L) % len(rots)], rots[(7 * L + 1) % len(rots)], rots[-1]]
+            jobs.append(("inv", (L, "dense", real, sub)))
     for L in range(1, 13):
         jobs.append(("local", L))
     jobs.append(("count", None))
@@ -397,7 +402,7 @@ def run(ctx):
     ctx.pmap(worker, jobs)
     ctx.rule = ("rotations: BFS over words of length <= %d in 5 generators (%d distinct) + 23 octahedral + 1 seed-rotated generic; vectors (general complex and "
                 "completed-real): all sums of <= 3 unit vectors with phase variants for L <= %d, <= 2 for L <= %d, unit vectors for L <= 6, adjacent-degree pairs "
-                "and unit vectors for L in {8,12}, 4 dense vectors everywhere; locality of N for every coefficient, L <= 12; count/order for L = 0..26; "
+                "and unit vectors for L in {8,12}, 4 dense + wide-range + decaying vectors at every L = 1..26; locality of N for every coefficient, L <= 12; count/order for L = 0..26; "
                 "states = coefficient vectors x L, transitions = rotations applied" % (depth, len(words), triple_L, pair_L))
     ctx.bounds = {"rotation_word_depth": depth, "rotations": len(rots), "triples_up_to_L": triple_L, "pairs_up_to_L": pair_L}
     ctx.assumptions = ["rotated coefficients by exact quadrature of scipy's harmonics (blocks verified unitary)", "P invariants compared after cubing (the signed cube root is ill-conditioned at 0), tolerance 1e-9 relative to (sum |c|^2)^(3/2)",
